@@ -143,6 +143,26 @@ func runC18(c *Ctx) {
 		c.R.Check(ok, rule, key, fn, c.pos(em.instr.Pos()), fmt.Sprintf("%s(%s; %s)", em.name, em.value, strings.Join(ls, ", ")), want,
 			"monitor metric does not describe the received message exactly (wrong source field, label order or condition)")
 	}
+	// the prefix loop(s): loop headers with an iteration that sets a monitor series. A loop over the
+	// options that only formats them (verbose logging) is not one of them
+	gaugeLoops := map[*ssa.BasicBlock]bool{}
+	for _, p := range ps {
+		if !p.Cut {
+			continue
+		}
+		in := false
+		p.Instrs(func(i ssa.Instruction) {
+			if i.Block() == p.CutTo {
+				in = true
+			}
+			if ci, ok := i.(ssa.CallInstruction); ok && in {
+				if _, ok := an.MetricCall(ci.Common()); ok {
+					gaugeLoops[p.CutTo] = true
+				}
+			}
+		})
+	}
+	c.R.Check(len(gaugeLoops) >= 1, "R-C18-2", fn+":prefix-loop", fn, c.pos(h.Pos()), fmt.Sprintf("%d loop(s) setting monitor series", len(gaugeLoops)), ">= 1", "no per-prefix series are set from a received router advertisement")
 	nRA := 0
 	for _, p := range ps {
 		if p.Panic != nil {
@@ -169,7 +189,7 @@ func runC18(c *Ctx) {
 
 		ra := false
 		lifeNZ := false
-		inLoop := p.Cut
+		inLoop := p.Cut && gaugeLoops[p.CutTo]
 		// an iteration over ra.Options that meets an option of another kind (pick written out as a loop
 		// with a checked type assertion) is not a prefix iteration: no prefix gauge may be set on it
 		otherOption := false
